@@ -248,7 +248,11 @@ class MCollect(Model):
         k = self.spec.get('cache_maxlen')
         # (a bounded caller-supplied cache keeps the last k values; the metadata cache is a separate, unbounded one)
         vals = items[-k:] if k else items
-        return [(tuple(v for v, _ in vals), tuple(m for _, ml in items for m in ml))]
+        mds = [m for _, ml in items for m in ml]
+        km = self.spec.get('md_cache_maxlen')
+        if km:
+            mds = mds[-km:]
+        return [(tuple(v for v, _ in vals), tuple(mds))]
 
     def holders(self):
         return [m for _, ml in self.cache for m in ml]
